@@ -13,12 +13,12 @@ for d in demos:
     shutil.copy(d, out)
 notes = open(os.path.join(SRC, "notes.md")).read() if os.path.exists(os.path.join(SRC, "notes.md")) else ""
 shutil.copy(os.path.join(SRC, "notes.md"), os.path.join(out, "notes.md"))
-prop = json.load(open(f"/tmp/seed2/props/{ID}.json"))
+prop = next(json.loads(l) for l in open("/verif/properties.jsonl") if json.loads(l)["id"] == ID)
 meta = {
     "property": ID,
     "property_title": prop["title"],
     "variant": M,
-    "origin": "written by an independent sub-agent that saw only the property record and a scratch worktree of /repo",
+    "origin": "written by an independent sub-agent that saw only the property record and a scratch worktree of /repo" + (" (round 3: it was also told which functions earlier rounds had changed and asked to use different sites and mechanisms)" if M in ("m5", "m6") else ""),
     "patch": "patch.diff (git apply at the repository root)",
     "demonstration": [os.path.basename(d) for d in demos],
     "demonstration_placement": DEST,
